@@ -117,6 +117,7 @@ func cmdServices(args []string) error {
 	}
 	t0, t1, t2 := "projects/p/topics/t0", "projects/p/topics/t1", "projects/p/topics/t2"
 	sec, tenMin, fortyFive := time.Second, 10*time.Minute, 45*time.Second
+	nearTTL := 2*time.Hour + 30*time.Minute // still 23 minutes from expiring when the expiry service runs (its age setting is 1 h)
 	setup := []*Op{
 		{Kind: "CreateTopic", Name: t0}, {Kind: "CreateTopic", Name: t1}, {Kind: "CreateTopic", Name: t2},
 		{Kind: "CreateSub", Sub: &SubReq{Name: "projects/p/subscriptions/s0", Topic: t0, DL: dl(t1, 1), Retry: &[2]*time.Duration{&sec, nil}}},
@@ -124,6 +125,7 @@ func cmdServices(args []string) error {
 		{Kind: "CreateSub", Sub: &SubReq{Name: "projects/p/subscriptions/s2", Topic: t2}},
 		{Kind: "CreateSub", Sub: &SubReq{Name: "projects/p/subscriptions/s3", Topic: t0, MsgTTL: &tenMin}},
 		{Kind: "CreateSub", Sub: &SubReq{Name: "projects/p/subscriptions/sx", Topic: t0, HasExp: true, TTL: &fortyFive}},
+		{Kind: "CreateSub", Sub: &SubReq{Name: "projects/p/subscriptions/sy", Topic: t0, HasExp: true, TTL: &nearTTL}},
 		{Kind: "CreateSub", Sub: &SubReq{Name: "projects/p/subscriptions/d0", Topic: t1}},
 		{Kind: "Publish", Name: t0, Msgs: []PubMsg{{Data: []byte(`{"n":1}`), Key: "k1"}, {Data: []byte(`{"n":2}`), Key: "k1"}, {Data: []byte(`{"n":3}`)}}},
 		{Kind: "Publish", Name: t2, Msgs: []PubMsg{{Data: []byte(`{"n":4}`)}, {Data: []byte(`{"n":5}`)}}},
